@@ -513,6 +513,8 @@ _ADDED13 = {
     "C19": " (CX1) see C09.",
     "C11": " (V5) registered here too for the topological sort: the reference-cycle check descends into the type arguments of references into other namespaces.",
     "C04": " (VS1) also reads a key built from TypeToShortSyntax(t, false) or concatenated from such parts as unqualified.",
+    "C06": " (MK2) no map of pkg/dsl is keyed by the unqualified spelling of a type (TypeToShortSyntax(t, false)): same-named types of different namespaces share it.",
+    "C05": " (MK2) see C06.",
     "C10": " (LW1) a loop that doubles or shifts a value until it exceeds a bound works on a math/big value or tests the value against zero as well (a machine integer wraps to 0).",
     "C13": " (LW1) see C10.",
     "C20": " (T12) is decided by types: a return in front of the generators stands under a test of an error-typed value or returns one.",
